@@ -311,6 +311,12 @@ class SymArray(_np.ndarray):
                         raise Unsupported("signbit of nan")
                     r[idx] = bool(v < 0)
             return r if r.shape else bool(r)
+        if method == "__call__" and ufunc is _np.logaddexp and out is None and len(ins) == 2:
+            # no object loop in NumPy: log(e^a + e^b) in its stable arrangement max + log(1 + e^(min - max)), elementwise
+            A, B = (_obj_operand(i) for i in ins)
+            mx, mn = _np.maximum(A, B), _np.minimum(A, B)
+            r = mx + _np.log(1 + _np.exp(mn - mx))
+            return wrap(r, nd)
         if method == "reduce" and _REDUCE_CANON and ufunc in (_np.maximum, _np.minimum) and out is None \
                 and "where" not in kw and "initial" not in kw:
             axis = kw.get("axis", 0)
